@@ -198,6 +198,7 @@ func famOpts(fam string, d, p int) ([]rs.Option, error) {
 		for i := range m {
 			m[i] = fill(seed, 1000+i, d)
 		}
+		lastCustom = m
 		return []rs.Option{rs.WithCustomMatrix(m)}, nil
 	}
 	if strings.HasPrefix(fam, "sparse:") { // sparse:<seed> — a custom matrix with about half of its coefficients zero (LRC style)
@@ -211,6 +212,7 @@ func famOpts(fam string, d, p int) ([]rs.Option, error) {
 				}
 			}
 		}
+		lastCustom = m
 		return []rs.Option{rs.WithCustomMatrix(m)}, nil
 	}
 	if strings.HasPrefix(fam, "blocks:") { // blocks:<seed> — a custom matrix whose aligned 10x10 tiles are all-zero or all-non-zero (local parities)
@@ -227,7 +229,21 @@ func famOpts(fam string, d, p int) ([]rs.Option, error) {
 				}
 			}
 		}
+		lastCustom = m
 		return []rs.Option{rs.WithCustomMatrix(m)}, nil
 	}
 	return nil, errors.New("badfam")
+}
+
+// lastCustom: the rows most recently handed to WithCustomMatrix.  newEnc overwrites them once New has returned: the encoder
+// must work from what it was given at construction time (its own copy), whatever the caller does with the slices later.
+var lastCustom [][]byte
+
+func scribbleCustom() {
+	for _, row := range lastCustom {
+		for j := range row {
+			row[j] = row[j]*7 + 0x5b
+		}
+	}
+	lastCustom = nil
 }
